@@ -19,6 +19,7 @@ type GenOpts struct {
 	ForceFileWriteRoot bool
 	FlatTemplateData   bool
 	DupNames           bool // reuse the same interface names in every package
+	Layout             []string // when set, use exactly these package directories
 }
 
 var ifaceNames = []string{"Store", "Reader", "Fetcher", "Renderer", "Closer", "Sorter", "Codec", "Waiter", "Getter", "Putter", "Walker", "Mixer"}
@@ -33,6 +34,9 @@ var pkgLayouts = [][]string{
 	{"x", "y", "z"},
 	{"a", "a/b", "a/b/c", "a/b/c/d"},
 	{"m/n", "m/o", "m/n/k"},
+	// "p-x" sorts between "p" and "p/q": an unrelated package between an ancestor and its descendant
+	{"p", "p-x", "p/q", "p/q/r"},
+	{"a", "a.b", "a/b", "a/b/c", "z"},
 }
 
 func baseName(dir string) string {
@@ -42,6 +46,24 @@ func baseName(dir string) string {
 		}
 	}
 	return dir
+}
+
+// pkgIdent turns a directory base name into a package identifier.
+func pkgIdent(s string) string {
+	b := []byte(s)
+	for i := range b {
+		if b[i] == '-' || b[i] == '.' {
+			b[i] = '_'
+		}
+	}
+	return string(b)
+}
+
+// NestedLayouts are the layouts in which recursive configs nest; the last two put an unrelated
+// package between an ancestor and its descendant in path order.
+var NestedLayouts = [][]string{
+	{"a", "a/b", "c"}, {"a", "a/b", "a/b/c"}, {"a", "a/b", "a/b/c", "a/d"}, {"p", "p/q", "p/q/r", "p/s", "t"}, {"a", "a/b", "a/b/c", "a/b/c/d"},
+	{"p", "p-x", "p/q", "p/q/r"}, {"a", "a.b", "a/b", "a/b/c", "z"}, {"p", "p-x", "p/q", "p/q/r"},
 }
 
 // GenPackages draws packages and interfaces.
@@ -56,10 +78,13 @@ func GenPackages(r *core.Rng, o GenOpts) []Pkg {
 		cands = pkgLayouts[:1]
 	}
 	layout := core.Pick(r, cands)
+	if len(o.Layout) > 0 {
+		layout = o.Layout
+	}
 	var pkgs []Pkg
 	nameIdx := r.Intn(len(ifaceNames))
 	for pi, dir := range layout {
-		pk := Pkg{Dir: dir, Name: baseName(dir)}
+		pk := Pkg{Dir: dir, Name: pkgIdent(baseName(dir))}
 		nIf := r.Range(1, o.MaxIfacesPerPkg)
 		nFiles := 1
 		if nIf > 1 && r.Bool() {
@@ -67,7 +92,7 @@ func GenPackages(r *core.Rng, o GenOpts) []Pkg {
 		}
 		files := make([]SrcFile, nFiles)
 		for fi := range files {
-			files[fi].Name = fmt.Sprintf("%s%d.go", baseName(dir), fi)
+			files[fi].Name = fmt.Sprintf("%s%d.go", pkgIdent(baseName(dir)), fi)
 		}
 		for k := 0; k < nIf; k++ {
 			ifc := Iface{Name: ifaceNames[(nameIdx+k)%len(ifaceNames)]}
